@@ -3,7 +3,7 @@ from circuit_common import *
 PROP = "C03"
 RULE = ("concurrent scripts (callers on clones, polls in any order, cancellations, gated inner outcomes incl. panics, advances hitting the wait boundary, "
         "force_open/force_closed/reset, classifier panics, calls created before and polled after the breaker opened) + half-open bursts (incl. wait 0, slow trials, "
-        "calls admitted while closed completing during the phase) + sequential histories + classifier-panic trials; operator actions through a clone taken before with_fallback; microsecond scripts with waits that are not whole milliseconds and callers 1 µs before / at / 1 µs after the wait and on the ms boundaries below it; non-trivial = the breaker left Closed at least once")
+        "calls admitted while closed completing during the phase) + sequential histories + classifier-panic trials; operator actions through a clone taken before with_fallback; operator actions also through the service's own (fallback) handle (ops 15-17); microsecond and nanosecond scripts with waits that are not whole ms / µs and callers 1 unit before / at / 1 unit after the wait and on the coarser-unit boundaries below it; non-trivial = the breaker left Closed at least once")
 
 
 def generate(rng, tier):
@@ -11,7 +11,9 @@ def generate(rng, tier):
     return ([random_concurrent(rng) for _ in range(900 * k)] + [half_open_burst(rng) for _ in range(400 * k)] +
             [random_seq_history(rng) for _ in range(400 * k)] + [multi_phase_burst(rng) for _ in range(200 * k)] +
             [classifier_panic_trials(rng) for _ in range(60 * k)] + [us_wait_boundary(rng) for _ in range(150 * k)] +
-            [random_seq_history(rng, us=True) for _ in range(80 * k)] + [half_open_burst(rng, us=True) for _ in range(80 * k)])
+            [random_seq_history(rng, us=True) for _ in range(80 * k)] + [half_open_burst(rng, us=True) for _ in range(80 * k)] +
+            [us_wait_boundary(rng, ns=True) for _ in range(120 * k)] + [random_seq_history(rng, us=2) for _ in range(60 * k)] +
+            [half_open_burst(rng, us=2) for _ in range(60 * k)])
 
 
 def monitor(s, t):
@@ -24,6 +26,8 @@ def monitor(s, t):
           leaves open whether a call arrives at call() or at its first poll, both are accepted);
       (b) a call made after that instant is answered in its first poll with OpenCircuit (r=3), or with the
           fallback's response (r=4) when a fallback is configured.
+      (c) a call that was admitted (its inner call started) is never answered with OpenCircuit / the fallback
+          afterwards ("calls admitted before it opened may still complete").
     A breaker found open again after a poll that started an inner call outside a shield has re-opened in that
     very event (a trial failed at once): the wait restarts there."""
     d = decode(s, t)
@@ -33,14 +37,16 @@ def monitor(s, t):
     now = 0
     made = {}                # caller -> index of the event at which its call future was created
     polled = set()
+    running = set()          # callers whose inner call has started and whose future is still pending
     shield_from, shield_idx = None, None
     prev_open = False
     for idx, (e, o) in enumerate(d):
         op, a, b = e
         r, started, st, sync, mst = o[:5]
-        lockfree, flags = sync % 10, sync // 10
+        lockfree, flags, other = sync % 10, (sync // 10) % 10, sync // 100
         is_open = (lockfree == 1) != bool(flags & 1)
-        open_now = st == 1 or mst == 1 or lockfree == 1 or is_open
+        # flags & 2: the service handle's own lock-free view differs from the plain clone's; `other` is its value
+        open_now = st == 1 or mst == 1 or lockfree == 1 or is_open or (bool(flags & 2) and other == 1)
         shielded = shield_from is not None and now - shield_from < wait
         first_poll = op == 1 and a not in polled
         if op in (1, 2, 8) and a not in made:
@@ -53,6 +59,14 @@ def monitor(s, t):
                 return "inner call started at t=%d by %s although the breaker was observed open at t=%d (wait %d) and no operator closed it" % (now, e, shield_from, wait)
             if first_poll and not old_call and r != (4 if fb else 3):
                 return "new call at t=%d, breaker observed open at t=%d (wait %d): got r=%d instead of %s" % (now, shield_from, wait, r, "the fallback's response" if fb else "OpenCircuit")
+        # "calls admitted before it opened may still complete": a call whose inner call is running is never answered
+        # with the open-circuit error / the fallback, whatever the breaker's state is by then
+        if op == 1 and a in running and r in (3, 4):
+            return "call %d was admitted (its inner call started) and is answered with %s at t=%d" % (a, "the fallback" if r == 4 else "OpenCircuit", now)
+        if op == 1 and started and r == 0:
+            running.add(a)
+        if op == 2 or (op == 1 and r != 0):
+            running.discard(a)
         if op == 3:
             now += max(0, a)
         if op in (6, 7):
